@@ -145,7 +145,8 @@ def render_doc(rng, doc, allow_json=True):
         return gen_docs.to_yaml(doc, style="flow",
                                 start=rng.random() < 0.5), ".yaml"
     return gen_docs.to_yaml(doc, start=rng.random() < 0.7,
-                            trailing_newline=rng.random() < 0.9), \
+                            trailing_newline=rng.random() < 0.9,
+                            indent_all=rng.choice([0, 0, 0, 2])), \
         rng.choice([".yaml", ".yml"])
 
 
@@ -412,7 +413,7 @@ def mutate_doc(rng, doc):
 
 
 def gen_diff(rng):
-    lhs = doc_for(rng, sets=False)
+    lhs = doc_for(rng, sets=False, multiline=rng.random() < 0.4)
     if rng.random() < 0.4:
         rhs, edits = copy.deepcopy(lhs), ["identical"]
         # shuffle key order at the root: order is not data for hashes
@@ -697,6 +698,7 @@ def gen_merge16(rng):
     for _ in range(nfiles):
         gen = gen_docs.DocGen(rng, sets=False, anchors=False,
                               nonascii=rng.random() < 0.15,
+                              multiline=rng.random() < 0.4,
                               max_nodes=rng.choice([4, 8, 12]))
         docs.append(gen.document(root=root))
     files = {}
